@@ -48,6 +48,10 @@ FAMILIES = {
               ("Gen_Order", "Gen_Order.cfg", "sim", {"quick": dict(num=200, depth=5, consts={}, seeds=1),
                                                     "thorough": dict(num=2000, depth=8, consts={}, seeds=3)})],
         replays=[dict(mode="instrswap", controls="", swap=True)]),
+    "SWAPSTAT": dict(  # statistics keys shared by a swap's outgoing leg and same-denom traffic (swap output returning over IBC)
+        mc=("MC_SwapStat", "MC_SwapStat.cfg", {"quick": {"MaxDepth": "4"}, "thorough": {"MaxDepth": "5"}}),
+        gens=[("Gen_SwapStat", "Gen_SwapStat.cfg", "bfs", {"quick": dict(depth=4, consts={}), "thorough": dict(depth=5, consts={})})],
+        replays=[dict(mode="instrswap", controls="", swap=True)]),
     "PARSE": dict(twice=True,
         mc=("MC_Parse", "MC_Parse.cfg", {"quick": {"ParseSet": '"small"', "NRandom": "20"}, "thorough": {"ParseSet": '"full"', "NRandom": "400"}}),
         gens=[("Gen_Parse", "Gen_Parse.cfg", "bfs", {"quick": dict(depth=1, consts={"ParseSet": '"small"', "NRandom": "20"}),
@@ -160,7 +164,7 @@ PROPS = {
                 rule="non-trivial = a successful orbiter transfer (success acknowledgement); distinct = distinct (abstract pre-state, abstract input)"),
     "C11": dict(families=["DUST", "FUNDS", "XFUND", "BIGSEQ"], groups=["ack", "bal", "stats", "xfers"], level="model_checking",
                 rule="non-trivial = an orbiter packet received while the orbiter account holds coins, with the paired control run on the emptied account executed; distinct = distinct (pre-state, input)"),
-    "C12": dict(families=["FUNDS", "STATS", "ORDER", "DISCARD", "GENESIS"], groups=["stats"], level="model_checking",
+    "C12": dict(families=["FUNDS", "STATS", "ORDER", "SWAPSTAT", "DISCARD", "GENESIS"], groups=["stats"], level="model_checking",
                 rule="non-trivial = a successful orbiter transfer (statistics must change by exactly that transfer); all other steps are checked for 'unchanged'; distinct = distinct (pre-state, input)"),
     "C03": dict(families=["FAULT", "FUNDS", "BIGSEQ"], groups=["ack", "fired", "xfers", "events"], level="fault_enumeration", exhaustive=True,
                 rule="FAULT: every (payload shape x armed fault set x clean/dusty state) is one execution with fault wrappers around the real dependencies; FUNDS: naturally occurring failures; non-trivial = a reception in which an armed fault actually fired or the transfer was refused; distinct = distinct (pre-state, input incl. fault set)"),
